@@ -8,6 +8,66 @@ from sa.core import Ctx
 from sa.sm import call_kw, const_str, dotted, find_calls, fstring_skeleton, norm, walk_no_nested
 
 
+def rename_site_rule(ctx: Ctx, rule: str, key: str):
+    """Both rename sites (the converter and the substitution tables) derive a variable's name from uname() with the
+    same reserved-name transformation - inline or through a shared helper."""
+    sm = ctx.sm
+    f = sm.func("myokit.py", "myokit_to_gotran")
+    g = sm.func("myokit.py", "extract_nested_variables")
+    from sa import av as _av
+
+    from . import util
+
+    A15 = util.AV(ctx)
+    rel15 = f.rel
+    # helpers that compute the reserved-name transformation of their argument's uname()
+    helpers = {}
+    for h_ in sm.funcs_in("myokit.py"):
+        if "." in h_.qualname or len(h_.params) != 1:
+            continue
+        hv = A15.returned(h_)[0]
+        ref = A15.expr(f"(f'{{{h_.params[0]}.uname()}}_' if {h_.params[0]}.uname() in reserved_names else {h_.params[0]}.uname())", env={h_.params[0]: ("sym", h_.params[0])}, rel=rel15)
+        if hv == _av.canon_binders(ref):
+            helpers[h_.name] = h_
+
+    def tree(fn):
+        return [fn] + [x for x in sm.funcs_in("myokit.py") if x.qualname.startswith(fn.qualname + ".")]
+
+    def rename_sites(fn):
+        good, bad = [], []
+        for fx in tree(fn):
+            for n in walk_no_nested(fx.node):
+                if isinstance(n, ast.If) and isinstance(n.test, ast.Compare) and len(n.test.ops) == 1 and isinstance(n.test.ops[0], ast.In) and norm(n.test.comparators[0]) == "reserved_names" and isinstance(n.test.left, ast.Name):
+                    v_ = n.test.left.id
+                    src = [a_ for a_ in ast.walk(fx.node) if isinstance(a_, ast.Assign) and norm(a_.targets[0]) == v_ and norm(a_.value).endswith(".uname()")]
+                    body = [fstring_skeleton(s_.value) for s_ in n.body if isinstance(s_, ast.Assign) and norm(s_.targets[0]) == v_]
+                    (good if src and body == ["{" + v_ + "}_"] and not n.orelse else bad).append((fx.qualname, norm(n.test), body))
+                if isinstance(n, ast.Call) and isinstance(n.func, ast.Name) and n.func.id in helpers:
+                    good.append((fx.qualname, norm(n), ["helper"]))
+        uses_uname = any(isinstance(c, ast.Call) and isinstance(c.func, ast.Attribute) and c.func.attr == "uname" for fx in tree(fn) for c in walk_no_nested(fx.node))
+        return good, bad, uses_uname
+
+    verdicts = []
+    ctx.__dict__["_rename_sites"] = rename_sites
+    for fn in (f, g):
+        good, bad, uses = rename_sites(fn)
+        if bad:
+            verdicts.append(("bad", f"{fn.qualname}: {bad}"))
+        elif good:
+            verdicts.append(("ok", ""))
+        elif uses:
+            verdicts.append(("bad", f"{fn.qualname} derives names from uname() without the reserved-name transformation"))
+        else:
+            verdicts.append(("unknown", f"{fn.qualname}: no name derivation found"))
+    if any(v_[0] == "bad" for v_ in verdicts):
+        ctx.fail(rule, key, f"the rename sites differ or are missing: {[w_ for k_, w_ in verdicts if k_ == 'bad']}; a variable would be declared under one name and referenced under another", f.where())
+    elif any(v_[0] == "unknown" for v_ in verdicts):
+        ctx.undecided(rule, key, "; ".join(w_ for k_, w_ in verdicts if k_ == "unknown"), f.where())
+    else:
+        ctx.ok(rule, key, "name = var.uname(); reserved -> name_ (at both sites)", f.where())
+    return tree
+
+
 def run(ctx: Ctx):
     sm = ctx.sm
     ctx.assume("preservation of the dynamics against Myokit's own evaluation - the main content of the property - is NOT decided: that needs Myokit executed. Only necessary bookkeeping conditions of the converter are decided.")
@@ -15,29 +75,46 @@ def run(ctx: Ctx):
     g = sm.func("myokit.py", "extract_nested_variables")
 
     ctx.rule("R15.a", "both rename sites apply the same reserved-name transformation to uname(); reserved names are all public sympy names", floor=3)
-    sites = []
-    for fn in (f, g):
-        for n in ast.walk(fn.node):
-            if isinstance(n, ast.If) and norm(n.test) == "name in reserved_names":
-                src = [a for a in ast.walk(fn.node) if isinstance(a, ast.Assign) and norm(a.targets[0]) == "name" and norm(a.value) == "var.uname()"]
-                sites.append((fn, n, bool(src), [fstring_skeleton(s.value) for s in n.body if isinstance(s, ast.Assign)]))
-    ok = len(sites) == 2 and all(s[2] and s[3] == ["{name}_"] for s in sites)
-    ctx.check(ok, "R15.a", "src/gotranx/myokit.py::rename-sites", "name = var.uname(); reserved -> name_ (at both sites)", f"the two rename sites differ or are missing: {[(s[0].qualname, s[2], s[3]) for s in sites]}; a variable would be declared under one name and referenced under another", f.where())
+    from sa import av as _av
+
+    from . import util
+
+    tree = rename_site_rule(ctx, "R15.a", "src/gotranx/myokit.py::rename-sites")
     mod = sm.module("myokit.py")
     rn = [n for n in mod.body if isinstance(n, ast.Assign) and norm(n.targets[0]) == "reserved_names"]
     ctx.check(bool(rn) and norm(rn[0].value).replace('"', "'") == "{name for name in dir(sp) if not name.startswith('_')}", "R15.a", "src/gotranx/myokit.py::reserved_names", "every public sympy name", f"reserved_names is {norm(rn[0].value) if rn else None}: a Myokit variable called e.g. `pi` keeps its name and is read back as the constant", "src/gotranx/myokit.py")
-    subs = {norm(n.targets[0]): norm(n.value) for n in ast.walk(g.node) if isinstance(n, ast.Assign) and isinstance(n.targets[0], ast.Subscript)}
-    oks = subs.get("component_subs[component.name()][sp.Symbol(var.name())]") == "sp.Symbol(name)" and subs.get("all_subs[sp.Symbol(var.qname())]") == "sp.Symbol(name)"
-    ctx.check(oks, "R15.a", g.key("substitutions"), "local name and qualified name both map to the unique name", f"extract_nested_variables records {subs}", g.where())
+    # the local name and the qualified name of a variable both map to the same (renamed) unique name
+    stores = []
+    for fx in tree(g):
+        cn = util.canon_of(fx)
+        for n in walk_no_nested(fx.node):
+            if isinstance(n, ast.Assign) and isinstance(n.targets[0], ast.Subscript):
+                stores.append((fx, norm(n.targets[0].slice), cn.text(n.value), norm(n.targets[0].value)))
+    local = [s_ for s_ in stores if s_[1].replace("sympy.", "sp.") == "sp.Symbol(var.name())"]
+    qual = [s_ for s_ in stores if s_[1].replace("sympy.", "sp.") == "sp.Symbol(var.qname())"]
+    if not local or not qual:
+        ctx.undecided("R15.a", g.key("substitutions"), f"the substitution tables of extract_nested_variables are not filled by the known stores (found keys {[s_[1] for s_ in stores]})", g.where())
+    else:
+        same = local[0][2] == qual[0][2] and local[0][2].replace("sympy.", "sp.").startswith("sp.Symbol(")
+        ctx.check(same, "R15.a", g.key("substitutions"), "local name and qualified name both map to the unique name", f"extract_nested_variables maps the local name to {local[0][2]} and the qualified name to {qual[0][2]}", g.where())
 
     ctx.rule("R15.b", "the state-derivative and the intermediate branch apply the same substitution chain, in the same order; states take their initial value by state index; constants by value", floor=6)
+    # both branches (state derivative, intermediate) rename the expression with the same chain of substitutions
+    fn15 = util.nf(ctx, "myokit.py", "myokit_to_gotran")  # private helpers expanded
+    cn15 = util.canon_of(fn15)
     chains = []
-    for w in [n for n in ast.walk(f.node) if isinstance(n, ast.With)]:
-        xs = [norm(s.value) for s in w.body if isinstance(s, ast.Assign) and norm(s.targets[0]) == "expr" and ".xreplace(" in norm(s.value)]
+    for w in [n for n in ast.walk(fn15.node) if isinstance(n, ast.With)]:
+        xs = []
+        for s_ in ast.walk(w):
+            if isinstance(s_, ast.Call) and isinstance(s_.func, ast.Attribute) and s_.func.attr == "xreplace" and s_.args:
+                xs.append(util.alpha_text(cn15.resolve(s_.args[0])))
         if xs:
             chains.append(xs)
-    want = ["expr.xreplace({v.name(): v.uname() for v in var.variables(deep=True)})", "expr.xreplace(component_subs.get(component.name(), {}))", "expr.xreplace(all_subs)"]
-    ctx.check(len(chains) == 2 and all(c == want for c in chains), "R15.b", f.key("substitution-chains"), "nested names, component names, qualified names - twice", f"the substitution chains of the two branches are {chains}", f.where())
+    want = [util.alpha_text(t_) for t_ in ("{v.name(): v.uname() for v in var.variables(deep=True)}", "component_subs.get(component.name(), {})", "all_subs")]
+    if len(chains) != 2:
+        ctx.undecided("R15.b", f.key("substitution-chains"), f"the two renaming chains are not found inside `with evaluate(False)` blocks (found {len(chains)})", f.where())
+    else:
+        ctx.check(all(sorted(c) == sorted(want) and c[-1] == "all_subs" for c in chains) and chains[0] == chains[1], "R15.b", f.key("substitution-chains"), "nested names, component names, qualified names - twice", f"the substitution chains of the two branches are {chains}", f.where())
     st = [c for c in ast.walk(f.node) if isinstance(c, ast.Call) and norm(c.func) == "atoms.State"]
     ctx.check(bool(st) and norm(call_kw(st[0], "value")) == "initial_values[var.index()]" and norm(call_kw(st[0], "name")) == "name", "R15.b", f.key("initial-values"), "state value = initial_values[var.index()]", f"a state's initial value is taken as {norm(call_kw(st[0], 'value')) if st else None}: with any other lookup states get each other's initial values when declaration order and state index differ", f.where(st[0]) if st else f.where())
     iv = [n for n in ast.walk(f.node) if isinstance(n, ast.Assign) and norm(n.targets[0]) == "initial_values"]
